@@ -18,6 +18,10 @@ from .c01 import classify_ir as classify_doc_ir
 ALL_CHAINS = [list(c) for n in (2, 3) for c in itertools.permutations(kinds.KINDS, n)]  # 42 pairs + 210 triples
 
 
+def _entries_map(ir):
+    return [(n, p) for n, p in ir["params"]] + ([("return_type", ir["returns"])] if ir["returns"] else [])
+
+
 AST_ONLY_CHAINS = [c for c in ALL_CHAINS if all(k in ("class", "function", "method") for k in c)]  # 6 pairs + 6 triples
 
 
@@ -187,6 +191,11 @@ class C05(AstKindProp):
         if any(k in ("function", "method") for k in chain):
             out += C03.explain_kind(self, {"ir": ir, "opts": {"inline_types": c["inline"]}})
         bad = self.entry_domains(c)
+        # (the model leaves every code default outside its domain; where such a default survives is decided by the
+        # measured matrix behind AST-code-default above, not by the model)
+        from ..astkinds import is_code
+
+        bad = {n for n in bad if not is_code(dict(_entries_map(ir)).get(n, {}).get("default"))}
         if bad:
             # an entry that, taken alone, is outside what some kind on the chain carries faithfully (after the
             # normalisation of the kinds before it)
